@@ -38,18 +38,43 @@ import (
 	"verif/harness/vh"
 )
 
+// Header is one setting of the two header-related template-data keys.
+type Header struct {
+	HasTags bool   `json:"has_tags"`
+	Expr    string `json:"expr"` // value of mock-build-tags
+	HasBP   bool   `json:"has_bp"`
+	BP      string `json:"bp"`      // content of the boilerplate file
+	BPPath  string `json:"bp_path"` // rel | dotrel | subdir | abs
+}
+
 type Case struct {
 	Template  string `json:"template"`  // testify | matryer
 	Formatter string `json:"formatter"` // goimports | gofmt | noop
 	Layout    string `json:"layout"`    // test (mocks_test.go in the source package) | nontest (mocks.go, same package) | separate (mocks/mocks.go, package mocks)
 	PerIface  bool   `json:"per_iface"` // one output file per interface instead of one shared file
-	Ifaces    int    `json:"ifaces"`    // 1 or 2
-	Level     string `json:"level"`     // where template-data is written: root | package
-	HasTags   bool   `json:"has_tags"`
-	Expr      string `json:"expr"` // value of mock-build-tags
-	HasBP     bool   `json:"has_bp"`
-	BP        string `json:"bp"`      // content of the boilerplate file
-	BPPath    string `json:"bp_path"` // rel | dotrel | subdir | abs
+	Ifaces    int    `json:"ifaces"`    // 1..3
+	Level     string `json:"level"`     // where the file-level template-data is written: root | package
+	// the file-level header settings (of the last run)
+	HasTags bool   `json:"has_tags"`
+	Expr    string `json:"expr"`
+	HasBP   bool   `json:"has_bp"`
+	BP      string `json:"bp"`
+	BPPath  string `json:"bp_path"`
+
+	// Mode "" = one run. "tworun" = a first run with the header settings Prev, then a second run over the
+	// same output files with the settings above (force-file-write: true); the file after the last run is
+	// judged with the last run's settings. "ifacelevel" = one file per interface, some interfaces carry
+	// mock-build-tags / boilerplate-file in their own config.template-data; mockery is run Runs times
+	// (map iteration order) and every run is judged.
+	Mode          string   `json:"mode,omitempty"`
+	Prev          *Header  `json:"prev,omitempty"`
+	IfaceTD       []Header `json:"iface_td,omitempty"`       // per interface (Doer, Namer, Closer); zero value = nothing at interface level
+	IfaceFilename bool     `json:"iface_filename,omitempty"` // filename written into each interface's config instead of a package-level filename template
+	Runs          int      `json:"runs,omitempty"`
+}
+
+func (c Case) hdr() Header {
+	return Header{HasTags: c.HasTags, Expr: c.Expr, HasBP: c.HasBP, BP: c.BP, BPPath: c.BPPath}
 }
 
 // ---- independent build-constraint evaluator ----------------------------------------------------
@@ -233,16 +258,25 @@ func render(t *rapid.T, n *node, sp func() string) string {
 	}
 }
 
-func genExpr(t *rapid.T) string {
-	ntags := rapid.SampledFrom([]int{3, 2, 4, 2, 1, 3, 4}).Draw(t, "ntags") // rapid favours low indices: the interesting sizes come first
-	perm := rapid.Permutation(tagPool).Draw(t, "tagperm")
+// genExpr draws an expression over at most maxTags of the tags in pool.
+func genExpr(t *rapid.T, pool []string, maxTags int) string {
+	sizes := []int{3, 2, 4, 2, 1, 3, 4} // rapid favours low indices: the interesting sizes come first
+	if maxTags < 4 {
+		sizes = []int{2, 1, 2}
+	}
+	ntags := min(rapid.SampledFrom(sizes).Draw(t, "ntags"), maxTags, len(pool))
+	perm := rapid.Permutation(pool).Draw(t, "tagperm")
 	tags := perm[:ntags]
 	var n *node
 	if rapid.IntRange(0, 7).Draw(t, "single") == 0 {
 		n = &node{op: "tag", tag: tags[0]}
 	} else {
+		depths := []int{2, 3, 2, 1, 4, 3}
+		if maxTags < 4 {
+			depths = []int{1, 2, 2}
+		}
 		leaf := 0
-		n = genNode(t, tags, rapid.SampledFrom([]int{2, 3, 2, 1, 4, 3}).Draw(t, "depth"), true, &leaf)
+		n = genNode(t, tags, rapid.SampledFrom(depths).Draw(t, "depth"), true, &leaf)
 	}
 	style := rapid.IntRange(0, 5).Draw(t, "spacing") // 0: none, 1..4: single spaces, 5: irregular
 	sp := func() string {
@@ -255,11 +289,38 @@ func genExpr(t *rapid.T) string {
 		return " "
 	}
 	s := render(t, n, sp)
-	// keep at most 4 distinct tags (2^4 go list calls)
-	if _, tg, _, err := parseExpr(s); err != nil || len(tg) > 4 {
+	if _, tg, _, err := parseExpr(s); err != nil || len(tg) > maxTags {
 		return tags[0]
 	}
 	return s
+}
+
+// printable reports whether go/printer's rewriting of the //go:build line keeps the expression valid
+// (it prints !(!x) as "!!x", which is not Go syntax).
+func printable(expr string) bool {
+	x, err := constraint.Parse("//go:build " + expr)
+	if err != nil {
+		return false
+	}
+	_, err = constraint.Parse("//go:build " + x.String())
+	return err == nil
+}
+
+func genHeader(t *rapid.T, pool []string, maxTags int, onlyPrintable bool) Header {
+	h := Header{BPPath: "rel"}
+	h.HasTags = rapid.IntRange(0, 7).Draw(t, "hastags") > 0
+	if h.HasTags {
+		h.Expr = genExpr(t, pool, maxTags)
+		if onlyPrintable && !printable(h.Expr) {
+			h.Expr = pool[0]
+		}
+	}
+	h.HasBP = rapid.IntRange(0, 7).Draw(t, "hasbp") > 0
+	if h.HasBP {
+		h.BP = genBoilerplate(t)
+		h.BPPath = rapid.SampledFrom([]string{"rel", "rel", "dotrel", "subdir", "abs"}).Draw(t, "bppath")
+	}
+	return h
 }
 
 var words = []string{
@@ -427,17 +488,89 @@ func gen(t *rapid.T) Case {
 		Layout:    rapid.SampledFrom([]string{"test", "nontest", "separate"}).Draw(t, "layout"),
 		Ifaces:    rapid.IntRange(1, 2).Draw(t, "ifaces"),
 		Level:     rapid.SampledFrom([]string{"root", "root", "package"}).Draw(t, "level"),
-		BPPath:    "rel",
+		Mode:      rapid.SampledFrom([]string{"tworun", "ifacelevel", "", "", "tworun", "", "", "ifacelevel", "", ""}).Draw(t, "mode"),
 	}
-	c.PerIface = c.Ifaces == 2 && rapid.IntRange(0, 2).Draw(t, "periface") == 0
-	c.HasTags = rapid.IntRange(0, 7).Draw(t, "hastags") > 0
-	if c.HasTags {
-		c.Expr = genExpr(t)
+	set := func(h Header) {
+		c.HasTags, c.Expr, c.HasBP, c.BP, c.BPPath = h.HasTags, h.Expr, h.HasBP, h.BP, h.BPPath
 	}
-	c.HasBP = rapid.IntRange(0, 7).Draw(t, "hasbp") > 0
-	if c.HasBP {
-		c.BP = genBoilerplate(t)
-		c.BPPath = rapid.SampledFrom([]string{"rel", "rel", "dotrel", "subdir", "abs"}).Draw(t, "bppath")
+	switch c.Mode {
+	case "":
+		c.PerIface = c.Ifaces == 2 && rapid.IntRange(0, 2).Draw(t, "periface") == 0
+		set(genHeader(t, tagPool, 4, false))
+
+	case "tworun":
+		// two tag pools of two tags each: the union of mentioned tags stays <= 4
+		c.PerIface = c.Ifaces == 2 && rapid.IntRange(0, 2).Draw(t, "periface") == 0
+		perm := rapid.Permutation(tagPool).Draw(t, "pools")
+		last := genHeader(t, perm[:2], 2, false)
+		prev := genHeader(t, perm[1:3], 2, true) // overlaps with the last run's pool in one tag
+		// per key, how the second run differs from the first: changed (as drawn), added, removed, same
+		switch rapid.SampledFrom([]string{"changed", "removed", "added", "changed", "same"}).Draw(t, "tagstrans") {
+		case "removed":
+			if !prev.HasTags {
+				prev.HasTags, prev.Expr = true, perm[1]
+			}
+			last.HasTags, last.Expr = false, ""
+		case "added":
+			prev.HasTags, prev.Expr = false, ""
+			if !last.HasTags {
+				last.HasTags, last.Expr = true, perm[0]
+			}
+		case "same":
+			prev.HasTags, prev.Expr = last.HasTags, last.Expr
+			if !printable(prev.Expr) && prev.HasTags {
+				prev.Expr, last.Expr = perm[0], perm[0]
+			}
+		}
+		switch rapid.SampledFrom([]string{"changed", "same", "removed", "added", "path-only", "same"}).Draw(t, "bptrans") {
+		case "removed":
+			if !prev.HasBP {
+				prev.HasBP, prev.BP = true, "// Copyright ACME (previous run)\n"
+			}
+			last.HasBP, last.BP, last.BPPath = false, "", "rel"
+		case "added":
+			prev.HasBP, prev.BP, prev.BPPath = false, "", "rel"
+			if !last.HasBP {
+				last.HasBP, last.BP = true, "/* Licensed under MIT (second run) */"
+			}
+		case "same":
+			prev.HasBP, prev.BP, prev.BPPath = last.HasBP, last.BP, last.BPPath
+		case "path-only":
+			prev.HasBP, prev.BP = last.HasBP, last.BP
+			if last.HasBP {
+				prev.BPPath = map[string]string{"rel": "subdir", "dotrel": "subdir", "subdir": "rel", "abs": "subdir"}[last.BPPath]
+			}
+		}
+		set(last)
+		c.Prev = &prev
+
+	case "ifacelevel":
+		c.Ifaces = rapid.SampledFrom([]int{2, 3, 3}).Draw(t, "nifaces")
+		c.PerIface = true
+		c.IfaceFilename = rapid.Bool().Draw(t, "ifacefilename")
+		c.Runs = rapid.IntRange(4, 8).Draw(t, "runs")
+		perm := rapid.Permutation(tagPool).Draw(t, "pools")
+		// file level: usually nothing (the question is then whether a file stays unconstrained)
+		if rapid.IntRange(0, 3).Draw(t, "filelevel") == 0 {
+			set(genHeader(t, perm[:2], 2, true)) // printable: the files are loaded again by the following runs
+		} else {
+			c.BPPath = "rel"
+		}
+		c.IfaceTD = make([]Header, c.Ifaces)
+		some := false
+		for i := range c.IfaceTD {
+			if i == c.Ifaces-1 && some {
+				break // at least one interface stays without interface-level keys
+			}
+			if rapid.IntRange(0, 2).Draw(t, "ifacetd") > 0 || (!some && i == c.Ifaces-2) {
+				h := genHeader(t, perm[2:4], 2, true)
+				if !h.HasTags && !h.HasBP {
+					h.HasTags, h.Expr = true, perm[2]
+				}
+				c.IfaceTD[i] = h
+				some = true
+			}
+		}
 	}
 	return c
 }
@@ -547,13 +680,57 @@ const modPath = "example.com/m"
 
 func yq(s string) string { b, _ := json.Marshal(s); return string(b) } // a JSON string is a YAML double-quoted scalar (ASCII input)
 
-func build(c Case, root string) (files map[string]string, outFiles []string, listPkg string) {
+var ifaceNames = []string{"Doer", "Namer", "Closer"}
+
+type outFile struct {
+	path  string
+	iface int // index of the single interface in the file, -1 for a shared file
+}
+
+// tdLines renders one header setting as template-data lines and returns the boilerplate file to write.
+func tdLines(h Header, root, stem string) (lines []string, rel, content string) {
+	if h.HasBP {
+		rel = stem + ".txt"
+		val := rel
+		switch h.BPPath {
+		case "dotrel":
+			val = "./" + rel
+		case "subdir":
+			rel = "hack/" + stem + " header.txt"
+			val = rel
+		case "abs":
+			val = filepath.Join(root, rel)
+		}
+		content = h.BP
+		lines = append(lines, "boilerplate-file: "+yq(val))
+	}
+	if h.HasTags {
+		lines = append(lines, "mock-build-tags: "+yq(h.Expr))
+	}
+	return lines, rel, content
+}
+
+func tdBlock(td []string, indent string) string {
+	if len(td) == 0 {
+		return ""
+	}
+	s := indent + "template-data:\n"
+	for _, l := range td {
+		s += indent + "  " + l + "\n"
+	}
+	return s
+}
+
+// build renders the module for one run with file-level header settings h.
+func build(c Case, h Header, root string) (files map[string]string, outFiles []outFile, listPkg string) {
 	src := "package p\n\ntype Doer interface{ Do(x int) error }\n"
-	names := []string{"Doer"}
 	if c.Ifaces > 1 {
 		src += "\ntype Namer interface {\n\tName() string\n\tSetName(name string, opts ...string)\n}\n"
-		names = append(names, "Namer")
 	}
+	if c.Ifaces > 2 {
+		src += "\ntype Closer interface{ Close() error }\n"
+	}
+	names := ifaceNames[:c.Ifaces]
 	files = map[string]string{"p/p.go": src}
 	dir, pkg, base := "{{.InterfaceDir}}", "p", "mocks_test.go"
 	outDir := "p"
@@ -566,49 +743,52 @@ func build(c Case, root string) (files map[string]string, outFiles []string, lis
 	}
 	filename := base
 	if c.PerIface {
-		filename = "mock_{{.InterfaceName}}_" + base
-		for _, n := range names {
-			outFiles = append(outFiles, outDir+"/mock_"+n+"_"+base)
+		if !c.IfaceFilename {
+			filename = "mock_{{.InterfaceName}}_" + base
+		}
+		for i, n := range names {
+			outFiles = append(outFiles, outFile{outDir + "/mock_" + n + "_" + base, i})
 		}
 	} else {
-		outFiles = []string{outDir + "/" + base}
+		outFiles = []outFile{{outDir + "/" + base, -1}}
 	}
-	var td []string
-	if c.HasBP {
-		rel := "boilerplate.txt"
-		val := rel
-		switch c.BPPath {
-		case "dotrel":
-			val = "./" + rel
-		case "subdir":
-			rel = "hack/license header.txt"
-			val = rel
-		case "abs":
-			val = filepath.Join(root, rel)
-		}
-		files[rel] = c.BP
-		td = append(td, "boilerplate-file: "+yq(val))
+	td, rel, content := tdLines(h, root, "boilerplate")
+	if rel != "" {
+		files[rel] = content
 	}
-	if c.HasTags {
-		td = append(td, "mock-build-tags: "+yq(c.Expr))
+	y := "template: " + c.Template + "\nformatter: " + c.Formatter + "\n"
+	if c.Mode != "" {
+		y += "force-file-write: true\n"
 	}
-	tdBlock := func(indent string) string {
-		if len(td) == 0 {
-			return ""
-		}
-		s := indent + "template-data:\n"
-		for _, l := range td {
-			s += indent + "  " + l + "\n"
-		}
-		return s
-	}
-	y := "template: " + c.Template + "\nformatter: " + c.Formatter + "\ndir: " + yq(dir) + "\nfilename: " + yq(filename) + "\npkgname: " + pkg + "\n"
+	y += "dir: " + yq(dir) + "\nfilename: " + yq(filename) + "\npkgname: " + pkg + "\n"
 	if c.Level == "root" {
-		y += tdBlock("")
+		y += tdBlock(td, "")
 	}
 	y += "packages:\n  " + modPath + "/p:\n    config:\n      all: true\n"
 	if c.Level != "root" {
-		y += tdBlock("      ")
+		y += tdBlock(td, "      ")
+	}
+	if c.Mode == "ifacelevel" {
+		entries := ""
+		for i, n := range names {
+			e := ""
+			if c.IfaceFilename {
+				e += "          filename: " + yq("mock_"+n+"_"+base) + "\n"
+			}
+			if i < len(c.IfaceTD) {
+				itd, irel, icontent := tdLines(c.IfaceTD[i], root, "iface_"+n)
+				if irel != "" {
+					files[irel] = icontent
+				}
+				e += tdBlock(itd, "          ")
+			}
+			if e != "" {
+				entries += "      " + n + ":\n        config:\n" + e
+			}
+		}
+		if entries != "" {
+			y += "    interfaces:\n" + entries
+		}
 	}
 	files[".mockery.yml"] = y
 	return files, outFiles, listPkg
@@ -687,7 +867,7 @@ func normDiag(s string) string {
 	return vh.Trunc(s, 90)
 }
 
-func bpShape(c Case) (labels []string, hasBlock, noFinalNL bool) {
+func bpShape(c Header) (labels []string, hasBlock, noFinalNL bool) {
 	if !c.HasBP {
 		return []string{"bp=absent"}, false, false
 	}
@@ -747,44 +927,91 @@ func bpShape(c Case) (labels []string, hasBlock, noFinalNL bool) {
 	return labels, hasBlock, noFinalNL
 }
 
-func run(c Case) *vh.Violation {
-	// ---- validate the case (generator soundness) and classify
-	var eval evalFn
-	var tags []string
-	ops := 0
-	if c.HasTags {
+// headerInfo is the harness's analysis of one header setting.
+type headerInfo struct {
+	eval          evalFn
+	tags          []string
+	ops           int
+	printerBreaks bool // formatter != noop and go/printer prints the expression back as invalid syntax (!!x)
+	hasBlock      bool
+	noFinalNL     bool
+	stable        int // gofmtStable level of the boilerplate
+	bpLabels      []string
+}
+
+// analyse validates a header setting (generator soundness; trouble is INFRA, never a violation).
+func analyse(h Header, formatter string) headerInfo {
+	hi := headerInfo{stable: 2}
+	if h.HasTags {
 		var err error
-		eval, tags, ops, err = parseExpr(c.Expr)
-		if err != nil || len(tags) == 0 || len(tags) > 4 {
+		hi.eval, hi.tags, hi.ops, err = parseExpr(h.Expr)
+		if err != nil || len(hi.tags) == 0 || len(hi.tags) > 4 {
 			vh.Invalid()
-			vh.Infra("generator produced an expression outside the domain: %q (%v)", c.Expr, err)
+			vh.Infra("generator produced an expression outside the domain: %q (%v)", h.Expr, err)
 		}
 		// cross-check the harness's evaluator with go/build/constraint on the full truth table
-		x, err := constraint.Parse("//go:build " + c.Expr)
+		x, err := constraint.Parse("//go:build " + h.Expr)
 		if err != nil {
 			vh.Invalid()
-			vh.Infra("go/build/constraint rejects generated expression %q: %v", c.Expr, err)
+			vh.Infra("go/build/constraint rejects generated expression %q: %v", h.Expr, err)
 		}
-		for m := 0; m < 1<<len(tags); m++ {
-			set := assignment(tags, m)
-			if eval(set) != x.Eval(func(t string) bool { return set[t] }) {
+		for m := 0; m < 1<<len(hi.tags); m++ {
+			set := assignment(hi.tags, m)
+			if hi.eval(set) != x.Eval(func(t string) bool { return set[t] }) {
 				vh.Invalid()
-				vh.Infra("harness evaluator disagrees with go/build/constraint on %q under %v", c.Expr, set)
+				vh.Infra("harness evaluator disagrees with go/build/constraint on %q under %v", h.Expr, set)
 			}
 		}
+		// go/printer (gofmt, goimports) rewrites a //go:build line to constraint.Expr.String(), which prints
+		// !(!x) as "!!x" — not Go syntax. Such an expression survives only the noop formatter; with the other
+		// two the damage is done by the Go formatter, not by mockery: don't-care for clause (iii).
+		hi.printerBreaks = formatter != "noop" && !printable(h.Expr)
 	}
-	// go/printer (gofmt, goimports) rewrites a //go:build line to constraint.Expr.String(), which prints
-	// !(!x) as "!!x" — not Go syntax. Such an expression survives only the noop formatter; with the other
-	// two the damage is done by the Go formatter, not by mockery: don't-care for clause (iii).
-	printerBreaksExpr := false
-	if c.HasTags && c.Formatter != "noop" {
-		x, _ := constraint.Parse("//go:build " + c.Expr)
-		if _, err := constraint.Parse("//go:build " + x.String()); err != nil {
-			printerBreaksExpr = true
+	hi.bpLabels, hi.hasBlock, hi.noFinalNL = bpShape(h)
+	if h.HasBP {
+		ok, _, why := commentOnly(h.BP)
+		if !ok {
+			vh.Invalid()
+			vh.Infra("generator produced a boilerplate that is not comment-only: %s\n%q", why, h.BP)
 		}
+		if n := strings.Count(core(h.BP), "\n") + 1; n > 20 {
+			vh.Invalid()
+			vh.Infra("boilerplate has %d lines", n)
+		}
+		expr := ""
+		if h.HasTags {
+			expr = h.Expr
+		}
+		hi.stable = gofmtStable(h.BP, expr)
+	}
+	return hi
+}
+
+func trans(prevHas, lastHas, same bool) string {
+	switch {
+	case !prevHas && !lastHas:
+		return "none"
+	case !prevHas:
+		return "added"
+	case !lastHas:
+		return "removed"
+	case same:
+		return "same"
+	}
+	return "changed"
+}
+
+func run(c Case) *vh.Violation {
+	// ---- validate the case (generator soundness) and classify
+	h := c.hdr()
+	hi := analyse(h, c.Formatter)
+	eval, tags, ops := hi.eval, hi.tags, hi.ops
+	uni := map[string]bool{}
+	for _, t := range tags {
+		uni[t] = true
 	}
 	cl := []string{"template=" + c.Template, "formatter=" + c.Formatter, "layout=" + c.Layout, "combo=" + c.Template + "+" + c.Formatter + "+" + c.Layout,
-		fmt.Sprintf("ifaces=%d", c.Ifaces), "level=" + c.Level}
+		fmt.Sprintf("ifaces=%d", c.Ifaces), "level=" + c.Level, "mode=" + map[string]string{"": "single-run", "tworun": "two-runs", "ifacelevel": "interface-level-keys"}[c.Mode]}
 	if c.PerIface {
 		cl = append(cl, "file-per-interface")
 	}
@@ -816,36 +1043,127 @@ func run(c Case) *vh.Violation {
 			cl = append(cl, "tags:tautology")
 		}
 	}
-	if printerBreaksExpr {
+	if hi.printerBreaks {
 		cl = append(cl, "tags:double-negation-unprintable-by-go/printer")
 	}
-	bpLabels, hasBlock, noFinalNL := bpShape(c)
-	cl = append(cl, bpLabels...)
-	stable := 2
-	if c.HasBP {
-		ok, _, why := commentOnly(c.BP)
-		if !ok {
+	cl = append(cl, hi.bpLabels...)
+	switch hi.stable {
+	case 1:
+		cl = append(cl, "bp:gofmt-keeps-comment-groups-only")
+	case 0:
+		cl = append(cl, "bp:gofmt-rewrites-comment-text")
+	}
+	modeFeat := ""
+	modeNT := false
+	type runSpec struct {
+		h  Header
+		hi headerInfo
+	}
+	runs := []runSpec{{h, hi}}
+	switch c.Mode {
+	case "":
+		if c.Prev != nil || len(c.IfaceTD) > 0 {
 			vh.Invalid()
-			vh.Infra("generator produced a boilerplate that is not comment-only: %s\n%q", why, c.BP)
+			vh.Infra("single-run case with two-run / interface-level fields")
 		}
-		if n := strings.Count(core(c.BP), "\n") + 1; n > 20 {
+	case "tworun":
+		if c.Prev == nil {
 			vh.Invalid()
-			vh.Infra("boilerplate has %d lines", n)
+			vh.Infra("two-run case without prev")
 		}
-		expr := ""
-		if c.HasTags {
-			expr = c.Expr
+		phi := analyse(*c.Prev, c.Formatter)
+		if phi.printerBreaks {
+			vh.Invalid()
+			vh.Infra("first run's expression %q would leave an invalid //go:build line in the package", c.Prev.Expr)
 		}
-		stable = gofmtStable(c.BP, expr)
-		switch stable {
-		case 1:
-			cl = append(cl, "bp:gofmt-keeps-comment-groups-only")
-		case 0:
-			cl = append(cl, "bp:gofmt-rewrites-comment-text")
+		for _, t := range phi.tags {
+			uni[t] = true
 		}
+		tt := trans(c.Prev.HasTags, h.HasTags, c.Prev.Expr == h.Expr)
+		bt := trans(c.Prev.HasBP, h.HasBP, c.Prev.BP == h.BP)
+		if bt == "same" && c.Prev.BPPath != h.BPPath {
+			bt = "path-only"
+		}
+		cl = append(cl, "rerun:tags="+tt, "rerun:bp="+bt)
+		modeFeat = ",rerun[tags:" + tt + ";boilerplate:" + bt + "]"
+		modeNT = (tt != "same" && tt != "none") || (bt != "same" && bt != "none")
+		if !modeNT {
+			cl = append(cl, "rerun:header-unchanged")
+		}
+		runs = []runSpec{{*c.Prev, phi}, {h, hi}}
+	case "ifacelevel":
+		if len(c.IfaceTD) != c.Ifaces || !c.PerIface || c.Runs < 1 || c.Runs > 8 {
+			vh.Invalid()
+			vh.Infra("malformed interface-level case")
+		}
+		if hi.printerBreaks {
+			vh.Invalid()
+			vh.Infra("file-level expression %q of a repeated run would leave an invalid //go:build line in the package", h.Expr)
+		}
+		nt, nb, clean := 0, 0, 0
+		for _, ih := range c.IfaceTD {
+			ihi := analyse(ih, c.Formatter)
+			if ihi.printerBreaks {
+				vh.Invalid()
+				vh.Infra("interface-level expression %q is not printable by go/printer", ih.Expr)
+			}
+			for _, t := range ihi.tags {
+				uni[t] = true
+			}
+			if ih.HasTags {
+				nt++
+			}
+			if ih.HasBP {
+				nb++
+			}
+			if !ih.HasTags && !ih.HasBP {
+				clean++
+			}
+		}
+		if clean == 0 || nt+nb == 0 {
+			vh.Invalid()
+			vh.Infra("interface-level case needs one interface with and one without interface-level keys")
+		}
+		var f []string
+		if nt > 0 {
+			f = append(f, "tags")
+			cl = append(cl, fmt.Sprintf("iface-level:tags-on-%d-of-%d", nt, c.Ifaces))
+		}
+		if nb > 0 {
+			f = append(f, "boilerplate")
+			cl = append(cl, fmt.Sprintf("iface-level:boilerplate-on-%d-of-%d", nb, c.Ifaces))
+		}
+		if c.HasTags || c.HasBP {
+			cl = append(cl, "iface-level:file-level-keys-too")
+		} else {
+			cl = append(cl, "iface-level:nothing-at-file-level")
+		}
+		if c.IfaceFilename {
+			cl = append(cl, "iface-level:filename-in-interface-config")
+		} else {
+			cl = append(cl, "iface-level:filename-template-at-package-level")
+		}
+		modeFeat = ",interface-level[" + strings.Join(f, "+") + "]"
+		modeNT = true
+		runs = nil
+		for i := 0; i < c.Runs; i++ {
+			runs = append(runs, runSpec{h, hi})
+		}
+	default:
+		vh.Invalid()
+		vh.Infra("unknown mode %q", c.Mode)
+	}
+	var universe []string
+	for t := range uni {
+		universe = append(universe, t)
+	}
+	sort.Strings(universe)
+	if len(universe) > 4 {
+		vh.Invalid()
+		vh.Infra("case mentions %d tags", len(universe))
 	}
 	fp := ""
-	if ops >= 2 || (c.HasBP && (hasBlock || noFinalNL)) {
+	if ops >= 2 || (c.HasBP && (hi.hasBlock || hi.noFinalNL)) || modeNT {
 		fp = vh.Hash(vh.JSON(c))
 	}
 	vh.Count(fp, cl...)
@@ -853,118 +1171,147 @@ func run(c Case) *vh.Violation {
 		vh.Sample(c)
 	}
 
-	// ---- build the module and run mockery
+	// ---- build the module and run mockery (once, twice, or Runs times)
 	root := vh.NewScratch()
 	defer vh.RemoveAll(root)
 	vh.NewModule(root, modPath)
-	files, outFiles, listPkg := build(c, root)
-	vh.WriteFiles(root, files)
-	before := vh.Snapshot(root)
-	res := vh.Mockery(root, nil)
-	if res.TimedOut {
-		vh.Infra("mockery timed out")
-	}
 	combo := "mockery/" + c.Template + "+" + c.Formatter
-	feat := func() string {
-		var f []string
-		if c.HasTags {
-			f = append(f, "tags")
+	var history string
+	for ri, rs := range runs {
+		files, outFiles, listPkg := build(c, rs.h, root)
+		vh.WriteFiles(root, files)
+		before := vh.Snapshot(root)
+		res := vh.Mockery(root, nil)
+		if res.TimedOut {
+			vh.Infra("mockery timed out")
 		}
-		if c.HasBP {
-			s := "boilerplate"
-			if hasBlock {
-				s += "+block"
+		if ri == 0 || c.Mode == "tworun" {
+			history += fmt.Sprintf("=== run %d of %d: .mockery.yml\n%s", ri+1, len(runs), files[".mockery.yml"])
+		} else {
+			history += fmt.Sprintf("=== run %d of %d: same configuration\n", ri+1, len(runs))
+		}
+		rh, rhi := rs.h, rs.hi
+		feat := func() string {
+			var f []string
+			if rh.HasTags {
+				f = append(f, "tags")
 			}
-			if noFinalNL {
-				s += "+no-final-newline"
-			}
-			f = append(f, s)
-		}
-		if len(f) == 0 {
-			return "plain"
-		}
-		return strings.Join(f, ",")
-	}()
-	tree := func() map[string]string {
-		t := vh.ReadTree(root)
-		delete(t, "go.sum")
-		return t
-	}
-	fail := func(diag, format string, a ...any) *vh.Violation {
-		obs := fmt.Sprintf("mockery exit %d\n--- .mockery.yml\n%s", res.Exit, files[".mockery.yml"])
-		if c.HasBP {
-			obs += fmt.Sprintf("--- boilerplate (Go-quoted)\n%q\n", c.BP)
-		}
-		for _, of := range outFiles {
-			if b, err := os.ReadFile(filepath.Join(root, of)); err == nil {
-				hd := string(b)
-				if i := strings.Index(hd, "\nimport"); i > 0 {
-					hd = hd[:i]
+			if rh.HasBP {
+				s := "boilerplate"
+				if rhi.hasBlock {
+					s += "+block"
 				}
-				obs += "--- head of " + of + "\n" + vh.Trunc(hd, 3000) + "\n"
+				if rhi.noFinalNL {
+					s += "+no-final-newline"
+				}
+				f = append(f, s)
 			}
+			s := strings.Join(f, ",")
+			if len(f) == 0 {
+				s = "plain"
+			}
+			if c.Mode == "ifacelevel" || (c.Mode == "tworun" && ri == 1) {
+				s += modeFeat
+			}
+			return s
+		}()
+		fail := func(diag, format string, a ...any) *vh.Violation {
+			obs := history + fmt.Sprintf("mockery exit %d\n", res.Exit)
+			if rh.HasBP {
+				obs += fmt.Sprintf("--- file-level boilerplate of this run (Go-quoted)\n%q\n", rh.BP)
+			}
+			for _, of := range outFiles {
+				if b, err := os.ReadFile(filepath.Join(root, of.path)); err == nil {
+					hd := string(b)
+					if i := strings.Index(hd, "\nimport"); i > 0 {
+						hd = hd[:i]
+					}
+					obs += "--- head of " + of.path + "\n" + vh.Trunc(hd, 3000) + "\n"
+				}
+			}
+			if res.Exit != 0 {
+				obs += "--- mockery output\n" + vh.Trunc(res.Both(), 3000)
+			}
+			t := vh.ReadTree(root)
+			delete(t, "go.sum")
+			return vh.Violate(combo+"/"+feat+"/"+diag, format, a...).With(t, obs)
+		}
+		if res.Panicked() {
+			return fail("panic", "mockery panicked on a documented configuration")
 		}
 		if res.Exit != 0 {
-			obs += "--- mockery output\n" + vh.Trunc(res.Both(), 3000)
+			return fail("exit-nonzero:"+normDiag(res.Stderr+"\n"+res.Stdout), "mockery exited %d on a documented configuration (run %d)", res.Exit, ri+1)
 		}
-		return vh.Violate(combo+"/"+feat+"/"+diag, format, a...).With(tree(), obs)
-	}
-	if res.Panicked() {
-		return fail("panic", "mockery panicked on a documented configuration")
-	}
-	if res.Exit != 0 {
-		return fail("exit-nonzero:"+normDiag(res.Stderr+"\n"+res.Stdout), "mockery exited %d on a documented configuration", res.Exit)
-	}
-	after := vh.Snapshot(root)
-	var written []string
-	for _, d := range vh.DiffSnap(before, after) {
-		if strings.HasSuffix(d, ".go") {
-			written = append(written, d[1:])
+		// which files get written is C07/C10's subject; a mismatch here means the harness misjudged the layout
+		isOut := map[string]bool{}
+		for _, of := range outFiles {
+			isOut[of.path] = true
+			if _, err := os.Stat(filepath.Join(root, of.path)); err != nil {
+				vh.Infra("expected output file %s is missing after run %d\n%s", of.path, ri+1, vh.Trunc(res.Both(), 1500))
+			}
+		}
+		for _, d := range vh.DiffSnap(before, vh.Snapshot(root)) {
+			if strings.HasSuffix(d, ".go") && !isOut[d[1:]] {
+				vh.Infra("mockery touched an unexpected Go file %s in run %d", d, ri+1)
+			}
+		}
+		if v := judge(c, rh, rhi, root, outFiles, listPkg, universe, fail); v != nil {
+			return v
 		}
 	}
-	sort.Strings(written)
-	want := append([]string(nil), outFiles...)
-	sort.Strings(want)
-	if strings.Join(written, " ") != strings.Join(want, " ") {
-		// which files get written is C07/C10's subject; here it means the harness misjudged the layout
-		vh.Infra("expected output files %v, mockery wrote %v\n%s", want, written, vh.Trunc(res.Both(), 1500))
+	return nil
+}
+
+// judge applies the oracle to the output files as they are after one run whose file-level header
+// settings were rh.
+func judge(c Case, rh Header, rhi headerInfo, root string, outFiles []outFile, listPkg string, universe []string,
+	fail func(diag, format string, a ...any) *vh.Violation) *vh.Violation {
+	// interface-level keys: whether they take effect for the interface's own file is a template design
+	// decision the property does not fix (don't-care); files without them follow the file-level settings.
+	ifaceTags := func(of outFile) bool {
+		return c.Mode == "ifacelevel" && of.iface >= 0 && of.iface < len(c.IfaceTD) && c.IfaceTD[of.iface].HasTags
+	}
+	ifaceBP := func(of outFile) bool {
+		return c.Mode == "ifacelevel" && of.iface >= 0 && of.iface < len(c.IfaceTD) && c.IfaceTD[of.iface].HasBP
 	}
 
 	// ---- (i) marker and (ii) boilerplate, per written file
 	for _, of := range outFiles {
-		src, err := os.ReadFile(filepath.Join(root, of))
+		src, err := os.ReadFile(filepath.Join(root, of.path))
 		if err != nil {
-			vh.Infra("read %s: %v", of, err)
+			vh.Infra("read %s: %v", of.path, err)
 		}
 		off, isPkg, _ := header(src)
 		if !isPkg {
-			return fail("header/first-token-not-package", "%s: the first non-comment token is not the package clause", of)
+			return fail("header/first-token-not-package", "%s: the first non-comment token is not the package clause", of.path)
 		}
-		markerAt := -1
-		pos := 0
-		for _, ln := range strings.SplitAfter(string(src[:off]), "\n") {
-			if markerRe.MatchString(strings.TrimSuffix(ln, "\n")) {
-				markerAt = pos
+		marker := false
+		for _, ln := range strings.Split(string(src[:off]), "\n") {
+			if markerRe.MatchString(ln) {
+				marker = true
 				break
 			}
-			pos += len(ln)
 		}
-		if markerAt < 0 {
-			return fail("marker/missing-before-package", "%s: no line matching %s before the package clause", of, markerRe)
+		if !marker {
+			return fail("marker/missing-before-package", "%s: no line matching %s before the package clause", of.path, markerRe)
 		}
 		fset := token.NewFileSet()
-		pf, perr := parser.ParseFile(fset, of, src, parser.ParseComments|parser.PackageClauseOnly)
+		pf, perr := parser.ParseFile(fset, of.path, src, parser.ParseComments|parser.PackageClauseOnly)
 		if perr != nil {
-			return fail("header/unparsable", "%s: header does not parse: %v", of, perr)
+			return fail("header/unparsable", "%s: header does not parse: %v", of.path, perr)
 		}
 		if !ast.IsGenerated(pf) {
-			return fail("marker/not-recognised-by-go/ast.IsGenerated", "%s: go/ast.IsGenerated reports false", of)
+			return fail("marker/not-recognised-by-go/ast.IsGenerated", "%s: go/ast.IsGenerated reports false", of.path)
 		}
-		if c.HasBP {
-			cr := core(c.BP)
+		if ifaceBP(of) {
+			vh.DontCare("interface-level-boilerplate-file(own-file)")
+			continue
+		}
+		if rh.HasBP {
+			cr := core(rh.BP)
 			demand := 2 // whole core, byte-for-byte
 			if c.Formatter != "noop" {
-				demand = stable
+				demand = rhi.stable
 			}
 			found := bytes.Contains(src[:off], []byte(cr))
 			switch {
@@ -980,16 +1327,12 @@ func run(c Case) *vh.Violation {
 				} else if t := strings.TrimSpace(cr); t != cr && bytes.Contains(src[:off], []byte(t)) {
 					what = "boilerplate/whitespace-trimmed"
 				}
-				return fail(what, "%s: the boilerplate content does not occur verbatim before the package clause", of)
+				return fail(what, "%s: the boilerplate content does not occur verbatim before the package clause", of.path)
 			}
 		}
 	}
 
-	// ---- (iii) build-constraint effectiveness: all 2^n assignments
-	if printerBreaksExpr {
-		vh.DontCare("constraint-after-" + c.Formatter + "-printed-double-negation")
-		return nil
-	}
+	// ---- (iii) build-constraint effectiveness: all 2^n assignments of every tag the case mentions
 	type verdict struct {
 		set       []string
 		want      bool
@@ -997,21 +1340,20 @@ func run(c Case) *vh.Violation {
 		cmd       string
 		infraText string
 	}
-	n := len(tags)
-	verdicts := make([]verdict, 1<<n)
-	if !c.HasTags {
-		// no constraint: always included, also when unrelated tags are set
+	var verdicts []verdict
+	if len(universe) == 0 {
+		// no constraint anywhere: always included, also when unrelated tags are set
 		verdicts = []verdict{{want: true}, {set: []string{"foo", "integ"}, want: true}}
 	} else {
-		for m := range verdicts {
-			set := assignment(tags, m)
+		for m := 0; m < 1<<len(universe); m++ {
+			set := assignment(universe, m)
 			var on []string
-			for _, t := range tags {
+			for _, t := range universe {
 				if set[t] {
 					on = append(on, t)
 				}
 			}
-			verdicts[m] = verdict{set: on, want: eval(set)}
+			verdicts = append(verdicts, verdict{set: on, want: !rh.HasTags || rhi.eval(set)})
 		}
 	}
 	var wg sync.WaitGroup
@@ -1039,13 +1381,23 @@ func run(c Case) *vh.Violation {
 		if v.infraText != "" {
 			vh.Infra("%s", v.infraText)
 		}
-		for _, of := range outFiles {
-			base := filepath.Base(of)
+	}
+	for _, of := range outFiles {
+		if ifaceTags(of) {
+			vh.DontCare("interface-level-mock-build-tags(own-file)")
+			continue
+		}
+		if rh.HasTags && rhi.printerBreaks {
+			vh.DontCare("constraint-after-" + c.Formatter + "-printed-double-negation")
+			continue
+		}
+		for _, v := range verdicts {
+			base := filepath.Base(of.path)
 			included := has(v.lo.GoFiles, base) || has(v.lo.TestGoFiles, base) || has(v.lo.XTestGoFiles, base)
 			ignored := has(v.lo.IgnoredGoFiles, base)
 			detail := fmt.Sprintf("%s\n  -> GoFiles=%v TestGoFiles=%v XTestGoFiles=%v IgnoredGoFiles=%v InvalidGoFiles=%v", v.cmd, v.lo.GoFiles, v.lo.TestGoFiles, v.lo.XTestGoFiles, v.lo.IgnoredGoFiles, v.lo.InvalidGoFiles)
 			if included == ignored {
-				vl := fail("constraint/file-not-classified-by-go-list", "%s: go list neither includes nor ignores the file under tags %v", of, v.set)
+				vl := fail("constraint/file-not-classified-by-go-list", "%s: go list neither includes nor ignores the file under tags %v", of.path, v.set)
 				vl.Observed += "\n--- " + detail
 				return vl
 			}
@@ -1054,10 +1406,10 @@ func run(c Case) *vh.Violation {
 				if !included {
 					diag = "constraint/excluded-although-expression-true"
 				}
-				if !c.HasTags {
+				if !rh.HasTags {
 					diag = "constraint/excluded-without-mock-build-tags"
 				}
-				vl := fail(diag, "%s: with tags %v the expression %q evaluates to %v but the toolchain included=%v", of, v.set, c.Expr, v.want, included)
+				vl := fail(diag, "%s: with tags %v the file-level expression %q evaluates to %v but the toolchain included=%v", of.path, v.set, rh.Expr, v.want, included)
 				vl.Observed += "\n--- " + detail
 				return vl
 			}
